@@ -47,3 +47,33 @@ def falsy_defaults(ctx, modules, why):
                     ctx.violate('%s:%s' % (modname, q), 'parameter `%s` is replaced by `%s` whenever it is falsy (`%s`), but %s:%s calls `%s` with the explicit value %r' % (
                         p, norm(e)[:60], norm(s)[:70].split('\n')[0], cmn, cq, norm(c)[:80], val), s, why)
     ctx.saw('%d functions, %d truthiness-default idioms on parameters checked against explicit falsy arguments of in-package callers' % (n, idioms))
+
+
+def _guard_selftest(ctx):
+    path = os.path.join(VERIF_DIR, 'fixtures', 'guarded_stores.py')
+    tree = ast.parse(open(path).read())
+    res = {}
+    for f in tree.body:
+        if isinstance(f, ast.FunctionDef):
+            res[f.name] = sorted(norm(s) for s, _, _ in falsy.value_guarded_stores(f))
+    if res != {'bad_refresh': ["record.count = report['count']"], 'good_refresh': []}:
+        raise AnalysisError('guarded-store fixtures classified %s' % res)
+    ctx.saw('value-guarded-store self-test on fixtures: %s' % res)
+
+
+def refresh_unconditional(ctx, scopes, why):
+    """``scopes``: list of (module, predicate on qualname)"""
+    _guard_selftest(ctx)
+    n = stores = 0
+    for modname, pred in scopes:
+        m = ctx.repo.mod(modname)
+        for q, f in m.functions.items():
+            if not pred(q):
+                continue
+            n += 1
+            stores += sum(1 for s in ast.walk(f) if isinstance(s, ast.Assign) and any(isinstance(t, (ast.Attribute, ast.Subscript)) for t in s.targets)
+                          and any(isinstance(x, ast.Subscript) for x in ast.walk(s.value)))
+            for st, guard, expr in falsy.value_guarded_stores(f):
+                ctx.violate('%s:%s' % (modname, q), '`%s` runs only when `%s` is truthy (`if %s`): a reported value of 0 / empty never replaces the stored one' % (norm(st)[:80], expr, norm(guard.test)[:90]), st, why)
+    ctx.saw('%d functions, %d stores of a looked-up value into a record scanned for a truthiness guard on the value itself' % (n, stores))
+    return stores
